@@ -665,7 +665,7 @@ func (vc *VC) subRef(owner types.Type, i int, r string) string {
 	inv := sym("subinv:" + typeKey(owner) + "." + owner.Underlying().(*types.Struct).Field(i).Name())
 	vc.sc.decl(fnm, fmt.Sprintf("(declare-fun %s (Int) Int)", fnm))
 	vc.sc.decl(inv, fmt.Sprintf("(declare-fun %s (Int) Int)", inv))
-	if strings.Contains(r, "?") {
+	if hasBound(r) {
 		vc.sc.declAxiom("sub:"+fnm, fmt.Sprintf("(forall ((r Int)) (! (and (= (%s (%s r)) r) (< (%s r) 0)) :pattern ((%s r))))", inv, fnm, fnm, fnm), fnm)
 		return app(fnm, r)
 	}
@@ -682,7 +682,7 @@ func (vc *VC) elemRef(arr, idx string) string {
 	vc.sc.decl("elem", "(declare-fun elem (Int Int) Int)")
 	vc.sc.decl("elem_arr", "(declare-fun elem_arr (Int) Int)")
 	vc.sc.decl("elem_idx", "(declare-fun elem_idx (Int) Int)")
-	if strings.Contains(arr+idx, "?") {
+	if hasBound(arr+idx) {
 		vc.sc.declAxiom("elem", "(forall ((a Int) (i Int)) (! (and (= (elem_arr (elem a i)) a) (= (elem_idx (elem a i)) i) (< (elem a i) 0)) :pattern ((elem a i))))", "elem")
 		return app("elem", arr, idx)
 	}
